@@ -88,6 +88,45 @@ def guard_violations():
     return list(_GUARD["violations"])
 
 
+# ---------------------------------------------------------------- failpoint
+# One-shot fault at a hook that needs no source change: the next time the process
+# opens a file whose path ends in `suffix` for writing, the open fails with ENOSPC
+# (the audit hook raises; the call never reaches the file system).
+_FAIL = {"spec": None, "installed": False, "fired": 0}
+
+
+def _fail_hook(ev, args):
+    sp = _FAIL["spec"]
+    if sp is None or ev != "open":
+        return
+    p, _mode, flags = args
+    if not isinstance(p, (str, bytes)) or not isinstance(flags, int):
+        return
+    if not (flags & (os.O_WRONLY | os.O_RDWR | os.O_CREAT | os.O_TRUNC | os.O_APPEND)):
+        return
+    ps = os.fsdecode(p)
+    if ps.endswith(sp["suffix"]):
+        _FAIL["spec"] = None
+        _FAIL["fired"] += 1
+        import errno
+
+        raise OSError(errno.ENOSPC, "No space left on device (asimap-verif failpoint)", ps)
+
+
+def arm_failpoint(suffix):
+    if not _FAIL["installed"]:
+        sys.addaudithook(_fail_hook)
+        _FAIL["installed"] = True
+    _FAIL["spec"] = {"suffix": suffix}
+
+
+def disarm_failpoint():
+    """Returns True when the armed fault was delivered."""
+    fired = _FAIL["spec"] is None
+    _FAIL["spec"] = None
+    return fired
+
+
 # ---------------------------------------------------------------- writer
 class MemWriter:
     _seq = 0
